@@ -77,9 +77,18 @@ func (e *Engine) merge2(a, b *State) (*State, bool) {
 	}
 	condA := e.suffixCond(a, base)
 	condB := e.suffixCond(b, base)
+	// lazily imported globals / native objects must be the same on both sides
+	if len(a.natives) != len(b.natives) || len(a.globals) != len(b.globals) {
+		return nil, false
+	}
+	for k, ia := range a.natives {
+		if ib, ok := b.natives[k]; !ok || ia != ib {
+			return nil, false
+		}
+	}
 	// globals maps must agree on common keys
 	for g, ia := range a.globals {
-		if ib, ok := b.globals[g]; ok && ia != ib {
+		if ib, ok := b.globals[g]; !ok || ia != ib {
 			return nil, false
 		}
 	}
@@ -185,6 +194,11 @@ func (e *Engine) merge2(a, b *State) (*State, bool) {
 	for g, ib := range b.globals {
 		if _, ok := a.globals[g]; !ok {
 			a.globals[g] = ib
+		}
+	}
+	for k, ib := range b.natives {
+		if _, ok := a.natives[k]; !ok {
+			a.natives[k] = ib
 		}
 	}
 	a.pc = append(append([]*Term(nil), a.pc[:base]...), e.TT.Or(condA, condB))
